@@ -5,7 +5,7 @@ import re
 from engine import cfg as C
 from engine import cpp, facts
 from engine.bounds import BoundsAnalysis
-from engine.dataflow import decl_of
+from engine.dataflow import decl_of, def_exprs
 from engine.facts import AnalysisBroken, render, strip
 from rules import common
 from rules.common import arg
@@ -102,8 +102,18 @@ def syslog_table_pairs(func, to_int):
                     tabs.setdefault(t['ref']['name'], []).append(n)
     for tname, uses in tabs.items():
         g = prog.global_var(tname)
-        if g is None or g.init is None or strip(g.init).k != 'InitListExpr':
+        ginit = g.init if g is not None else None
+        if ginit is None:
+            # a table that is static inside the function
+            for d_ in func.local_decls():
+                if d_['name'] == tname and d_.get('init', -1) != -1:
+                    ginit = func.nodes[d_['init']]
+        if ginit is None or strip(ginit).k != 'InitListExpr':
             continue
+
+        class _G:
+            init = ginit
+        g = _G
         isstr = lambda m: '*' in (m.get('ct') or '')
         # which column is compared, which is returned
         compared = set()
@@ -672,8 +682,12 @@ def _quote_rule_in(chk, P, n0):
                    render(again[0])[:50] if again else ''),
                how='no second cut of the value is reachable before it is assigned anew')
 
+        copies = _first_char_copies(P, base['id'])
+
         def end_of(t):
             if t.k == 'UnaryOperator' and t['op'] == '*' and (decl_of(t.ch[0]) or {}).get('id') == base['id']:
+                return 'first'
+            if t.k == 'DeclRefExpr' and t['ref'].get('id') in copies:
                 return 'first'
             if t.k == 'ArraySubscriptExpr' and (decl_of(t.ch[0]) or {}).get('id') == base['id']:
                 i2 = strip(t.ch[1])
@@ -687,10 +701,12 @@ def _quote_rule_in(chk, P, n0):
         last_equals_first = False
         for b in P.blocks.values():
             c = strip(b.cond) if b.cond is not None else None
-            if c is None or len(b.all_succs) != 2 or c.k != 'BinaryOperator' or c['op'] != '==':
+            if c is None or len(b.all_succs) != 2 or c.k != 'BinaryOperator' or c['op'] not in ('==', '!='):
                 continue
             el = C.cfg_elem_of(P, st)
-            visited, _ = C.reach(P, (P.entry, 0), None, edge_filter=lambda bb, si, b=b: not (bb.id == b.id and si == 0))
+            eq_edge = 0 if c['op'] == '==' else 1       # `if (last != first) return` leaves by the other edge
+            visited, _ = C.reach(P, (P.entry, 0), None,
+                                 edge_filter=lambda bb, si, b=b, eq_edge=eq_edge: not (bb.id == b.id and si == eq_edge))
             dominates = el.id not in visited
             ends = [end_of(strip(x)) for x in c.ch]
             if set(ends) == {'first', 'last'}:
@@ -699,7 +715,7 @@ def _quote_rule_in(chk, P, n0):
             k = [strip(x).get('v') for x in c.ch if strip(x).get('v') is not None and strip(x).k != 'DeclRefExpr']
             if not k:
                 continue
-            tgt = [strip(x) for x in c.ch if strip(x).get('v') is None]
+            tgt = [strip(x) for x in c.ch if strip(x).get('v') is None or strip(x).k == 'DeclRefExpr']
             if not tgt:
                 continue
             which = end_of(tgt[0])
@@ -718,20 +734,44 @@ def _quote_rule_in(chk, P, n0):
     return n
 
 
+def _first_char_copies(P, base_id):
+    """locals that hold a copy of the first character of the string: defined once, by `*base` / `base[0]`, while the
+    pointer itself is never moved in this function"""
+    if any(common.modifies_var(e, base_id) for e in P.body.walk()):
+        return set()
+    out = set()
+    for d in P.local_decls():
+        if 'char' not in (d.get('ct') or '') or '*' in (d.get('ct') or '') or '[' in (d.get('ct') or ''):
+            continue
+        defs = [strip(x) for x in def_exprs(P, d['id'])]
+        if len(defs) != 1 or any(e.k in ('UnaryOperator', 'CompoundAssignOperator') and common.modifies_var(e, d['id']) for e in P.body.walk()):
+            continue
+        t = defs[0]
+        if (t.k == 'UnaryOperator' and t.get('op') == '*' and (decl_of(t.ch[0]) or {}).get('id') == base_id) or \
+                (t.k == 'ArraySubscriptExpr' and (decl_of(t.ch[0]) or {}).get('id') == base_id and strip(t.ch[1]).get('v') == 0):
+            out.add(d['id'])
+    return out
+
+
 def _first_char_is_quote_on_all_paths(P, store, base_id):
     """every path to `store` has seen *base == '"' or *base == '\'' succeed"""
+    copies = _first_char_copies(P, base_id)
+
     def quote_edge(blk):
         c = strip(blk.cond) if blk.cond is not None else None
-        if c is None or len(blk.all_succs) != 2 or c.k != 'BinaryOperator' or c['op'] not in ('==',):
+        if c is None or len(blk.all_succs) != 2 or c.k != 'BinaryOperator' or c['op'] not in ('==', '!='):
             return None
-        ks = [strip(x).get('v') for x in c.ch if strip(x).get('v') is not None]
-        ts = [strip(x) for x in c.ch if strip(x).get('v') is None]
+        ks = [strip(x).get('v') for x in c.ch if strip(x).get('v') is not None and strip(x).k != 'DeclRefExpr']
+        ts = [strip(x) for x in c.ch if strip(x).get('v') is None or strip(x).k == 'DeclRefExpr']
         if not ks or not ts or ks[0] not in (34, 39):
             return None
         t = ts[0]
         first = (t.k == 'UnaryOperator' and t['op'] == '*' and (decl_of(t.ch[0]) or {}).get('id') == base_id) or \
-            (t.k == 'ArraySubscriptExpr' and (decl_of(t.ch[0]) or {}).get('id') == base_id and strip(t.ch[1]).get('v') == 0)
-        return 0 if first else None
+            (t.k == 'ArraySubscriptExpr' and (decl_of(t.ch[0]) or {}).get('id') == base_id and strip(t.ch[1]).get('v') == 0) or \
+            (t.k == 'DeclRefExpr' and t['ref'].get('id') in copies)
+        if not first:
+            return None
+        return 0 if c['op'] == '==' else 1
     return common.guarded_at(P, store, quote_edge, lambda e: common.modifies_var(e, base_id))
 
 
